@@ -668,7 +668,7 @@ class Engine:
                     try:
                         v = thunk()
                         extra = self.path.pc[len(pc0):]
-                        normals.append((z3.And(*extra) if extra else z3.BoolVal(True), self.snapshot(env), v))
+                        normals.append(((z3.And(*extra) if len(extra) > 1 else extra[0]) if extra else z3.BoolVal(True), self.snapshot(env), v))
                     except PyRaise:
                         if self.feasible(z3.BoolVal(True)):
                             excs.append((ai, tuple(self.prefix[:self.pos])))
